@@ -65,6 +65,7 @@ func (x *Exec) evalCall(call *ast.CallExpr, env *Env) []Term {
 			recvExpr = se.X
 		}
 	}
+	x.countCall(fn, key, call, env)
 	// call-site clauses on library callees (checked before the library model consumes the call)
 	if _, inMod := x.P.ByObj[fn]; !inMod && x.cx != nil && x.cx.fc != nil && len(x.cx.fc.Callsite) > 0 && x.quiet == 0 && !x.termMode {
 		for _, cs := range x.cx.fc.Callsite {
